@@ -71,6 +71,8 @@ pub struct WriterBench {
   async_wait: Option<WaitFuture>,
   pub async_flag: Arc<FlagWaker>,
   sync_wait: Option<std::thread::JoinHandle<(Result<bool, String>, f64)>>,
+  /// a second application thread waiting on the same DataWriter at the same time
+  sync_wait2: Option<std::thread::JoinHandle<(Result<bool, String>, f64)>>,
   writer: Writer,
   pub dw: Box<with_key::DataWriter<VSample>>,
   mr: MessageReceiver,
@@ -166,7 +168,7 @@ impl WriterBench {
     let mr = MessageReceiver::new(e.dp.guid_prefix(), acknack_tx, spdp_tx, None);
     let mut own_prefix = [0u8; 12];
     own_prefix.copy_from_slice(e.dp.guid_prefix().as_ref());
-    WriterBench { cfg, async_wait: None, async_flag: Arc::new(FlagWaker(Default::default())), sync_wait: None, writer, dw: Box::new(dw), mr, acknack_rx, _spdp_rx: spdp_rx, status_rx: pstatus_rx, own_prefix, writer_eid, qos }
+    WriterBench { cfg, async_wait: None, async_flag: Arc::new(FlagWaker(Default::default())), sync_wait: None, sync_wait2: None, writer, dw: Box::new(dw), mr, acknack_rx, _spdp_rx: spdp_rx, status_rx: pstatus_rx, own_prefix, writer_eid, qos }
   }
 
   pub fn writer_guid(&self) -> [u8; 16] {
@@ -288,6 +290,21 @@ impl WriterBench {
       (r, t0.elapsed().as_secs_f64())
     }));
   }
+  /// the same from a second thread while the first wait may still be pending
+  pub fn sync_wait2_spawn(&mut self, timeout_ms: u64) {
+    let p = DwPtr(&*self.dw as *const _);
+    self.sync_wait2 = Some(std::thread::spawn(move || {
+      let p = p;
+      // SAFETY: as sync_wait_spawn; joined in sync_wait2_join / Drop
+      let dw = unsafe { &*p.0 };
+      let t0 = std::time::Instant::now();
+      let r = dw.wait_for_acknowledgments(std::time::Duration::from_millis(timeout_ms)).map_err(|e| format!("{e:?}"));
+      (r, t0.elapsed().as_secs_f64())
+    }));
+  }
+  pub fn sync_wait2_join(&mut self) -> Option<(Result<bool, String>, f64)> {
+    self.sync_wait2.take().map(|h| h.join().expect("second waiter thread panicked"))
+  }
   pub fn sync_wait_finished(&self) -> bool {
     self.sync_wait.as_ref().map_or(true, |h| h.is_finished())
   }
@@ -341,6 +358,9 @@ impl Drop for WriterBench {
   fn drop(&mut self) {
     self.async_wait = None;
     if let Some(h) = self.sync_wait.take() {
+      let _ = h.join();
+    }
+    if let Some(h) = self.sync_wait2.take() {
       let _ = h.join();
     }
   }
